@@ -457,27 +457,28 @@ class Fn:
             if not keys:
                 return k()
 
-            def branch(body):
+            def branch(body, key):
                 self.version = dict(saved)
                 def tail():
-                    vs = [self.cur(x) for x in keys]
-                    return ("  " * (ind + 2)) + (vs[0] if len(vs) == 1 else "(" + ", ".join(vs) + ")") + "\n"
+                    return ("  " * (ind + 2)) + self.cur(key) + "\n"
                 if body is None:
                     return tail()
                 return self.stmt(body, ind + 2, tail)
-            t_txt = branch(then)
-            e_txt = branch(els)
+            # one `if` per joined variable (each repeats the branch computation): no tuples, which
+            # keeps the generated term friendly to `split` / `grind`
+            texts = [(x, branch(then, x), branch(els, x)) for x in keys]
             self.version = dict(saved)
-            news = [self.fresh(x) for x in keys]
-            if len(news) == 1:
-                return (f"{pad}let {news[0]} :=\n{pad}  if {c} then (\n{t_txt}{pad}  ) else (\n{e_txt}{pad}  )\n") + k()
-            # several joined variables: bind the tuple, then project (friendlier to `simp`/`split` than a pattern-let)
-            self.joins = getattr(self, "joins", 0) + 1
-            jn = f"join{self.joins}"
-            out = f"{pad}let {jn} :=\n{pad}  if {c} then (\n{t_txt}{pad}  ) else (\n{e_txt}{pad}  )\n"
-            for pos, nm in enumerate(news):
-                proj = ".2" * pos + (".1" if pos < len(news) - 1 else "")
-                out += f"{pad}let {nm} := {jn}{proj}\n"
+            out = ""
+            news = {x: None for x in keys}
+            for x, t_txt, e_txt in texts:
+                self.version[x] = saved[x]
+            fresh_names = {}
+            for x in keys:
+                fresh_names[x] = f"{x}_{saved[x] + 1}"
+            for x, t_txt, e_txt in texts:
+                out += f"{pad}let {fresh_names[x]} :=\n{pad}  if {c} then (\n{t_txt}{pad}  ) else (\n{e_txt}{pad}  )\n"
+            for x in keys:
+                self.version[x] = saved[x] + 1
             return out + k()
         if kind == "ForStmt":
             init, _, cond, inc, body = node["inner"][0], node["inner"][1], node["inner"][2], node["inner"][3], node["inner"][4]
